@@ -428,6 +428,35 @@ class ExecGen:
         blk([])
         self.tags.add("two-groups-one-block-scenario")
 
+    def scripted_hub_reverse_pair(self):
+        """hub world: traffic over a pair across the two BitXHubs AND over the reverse pair.  A request that was never accepted but
+        carries a notice-shaped Extra field is a plain new request (there is nothing to be notified about); a notice for an accepted
+        one ends it; resends are refused; the counters of the local service are read after every step"""
+        r = self.rng
+        loc = r.choice(["c1:s1", "c2:s1", "c4:s1"])
+        rem = "9999:c5:s1"
+        la = ADMIN[loc.split(":")[0]]
+
+        def blk(txs):
+            self.height += 1
+            self.ops.append("block " + " | ".join(txs) if txs else "block")
+            self.ops.append(f"q ic {loc}")
+            self.ops.append(f"q status {full(loc)}-{rem}-1")
+        nrev = r.choice([1, 1, 2, 0])
+        for i in range(1, nrev + 1):
+            blk([f"ibtp ca9 {rem} {loc} {i} req 0 - msig3"])
+        self.hub_next[(rem, loc)] = nrev + 1
+        x1 = r.choice(["x:bf", "x:br", "x:bf", "x:ok"])
+        blk([f"ibtp {la} {loc} {rem} 1 req {r.choice([0, 4])} - ok {x1}"])
+        k = r.random()
+        if k < 0.4:
+            blk([f"ibtp {la} {loc} {rem} 1 req 0 - ok"])                      # a resend of the accepted request: refused
+        elif k < 0.8:
+            blk([f"ibtp {la} {loc} {rem} 1 req 0 - ok {r.choice(['x:bf', 'x:br'])}"])   # the other hub's notice for it
+        blk([f"ibtp {la} {loc} {rem} 2 req 0 - ok"])
+        self.hub_next[(loc, rem)] = 3
+        self.tags.add("hub-reverse-pair-scenario")
+
     def scripted_interhub(self):
         """between two BitXHubs: another hub (id 9999, four validators) is registered as a relay chain by governance; a local service
         sends a request with a deadline to a service over there; the other hub's receipt (signed by enough of its validators) arrives
@@ -463,6 +492,8 @@ class ExecGen:
         if self.focus == "single" and 0.8 < k <= 0.9 and not self.hub:
             self.scripted_interhub()
             nblocks = min(nblocks, 4)
+        if self.hub and k < 0.35:
+            self.scripted_hub_reverse_pair()
         if self.focus == "group" and k < 0.2 and not self.hub:
             self.scripted_two_groups_one_block()
             nblocks = max(3, nblocks - 4)
